@@ -274,6 +274,14 @@ def st_idiom(draw, allow_load_q=False):
             a, b = draw(st.sampled_from([(1, 2), (2, 1)]))
             ra, rb = qregs[0], qregs[1]
             body += [f"set {ra} {a}", f"set {rb} {b}", f"{draw(st.sampled_from(['cnot', 'cphase'])) if kind2 == 'mixed' else kind2} {ra} {rb}"]
+        if draw(st.booleans()):
+            # ... followed by a conditional: its exit label lies several hundred NV instructions into the subroutine
+            lab = new_label("IF_EXIT")
+            cell = draw(st.integers(0, 5))
+            body += [f"load R1 @0[{cell}]", f"{'beq' if draw(st.integers(0, 3)) > 0 else 'bne'} R1 {stored[cell]} {lab}", f"set {qregs[0]} {draw(st.integers(0, nq - 1))}", f"h {qregs[0]}",
+                     f"{lab}:", f"set {qregs[1]} {draw(st.integers(0, nq - 1))}", f"{draw(st.sampled_from(['x', 'h', 'k']))} {qregs[1]}"]
+            info["ifs"] += 1
+            info["label_beyond_256"] = True
         info["cc"] = True
         info["stress"] = True
     elif split and draw(st.integers(0, 1)) == 0 and loop_regs:
@@ -458,7 +466,7 @@ def shard(ctx: Ctx) -> None:
             return
         i = case["info"]
         nt = i["cc"] or i["end_label"] or i["ifs"] > 0
-        labels = ["idiom", f"nq:{case['nq']}", "debug" if case["debug"] else "nodebug"] + [k for k in ("cc", "end_label", "stress", "label_at_0", "load_single", "full16", "sdk_mov", "same_index_classical_set", "realloc", "kept_across_if", "kept_across_loop", "label_on_two_qubit_gate", "electron_id_only_in_skipped_body") if i.get(k)] + (["loop"] if i["loops"] else []) + (["if"] if i["ifs"] else [])
+        labels = ["idiom", f"nq:{case['nq']}", "debug" if case["debug"] else "nodebug"] + [k for k in ("cc", "end_label", "stress", "label_at_0", "load_single", "full16", "sdk_mov", "same_index_classical_set", "realloc", "kept_across_if", "kept_across_loop", "label_on_two_qubit_gate", "electron_id_only_in_skipped_body", "label_beyond_256") if i.get(k)] + (["loop"] if i["loops"] else []) + (["if"] if i["ifs"] else [])
         stt.case(str(case.get("prologue")) + case["text"] + str(case["outcomes"]) + str(case["debug"]), nt, labels, sample={"text": case["text"], "debug": case["debug"]} if len(case["text"]) < 700 else None)
 
     allow = KF_LOAD not in ctx.open_findings
